@@ -1174,8 +1174,13 @@ def run_values(inp):
 
 
 def lean_values(inp, obs):
-    return [{"op": "c12.array_like_val", "major": MAJOR, "array": inp["array"], "v": Q.qs(F(inp["v"]).limit_denominator(1000)),
-             "dtype": inp["dtype"], "integer_type": inp["integer_type"]}]
+    v = Q.qs(F(inp["v"]).limit_denominator(1000))
+    ops = [{"op": "c12.array_like_val", "major": MAJOR, "array": inp["array"], "v": v,
+            "dtype": inp["dtype"], "integer_type": inp["integer_type"]}]
+    if inp["dtype"] is None and not inp["integer_type"]:
+        # the same call is the entry point `array_like` of the table: `entryVal` (packaging_value_independent is stated for it)
+        ops.append({"op": "c12.entry_val", "major": MAJOR, "entry": "array_like", "pack": inp["array"], "v": v})
+    return ops
 
 
 def judge_values(inp, obs, lr):
@@ -1187,7 +1192,90 @@ def judge_values(inp, obs, lr):
     md, mv = r["ok"][0], float(F(r["ok"][1]))
     if obs["res"][0] != md or obs["res"][1] != [mv]:
         return {"expected": {"model": [md, mv]}, "observed": obs["res"], "tags": {"what": "value", "pack": inp["array"]["k"], "dtype": inp["dtype"]}}
+    for r in lr[1:]:
+        if "err" in r:
+            return {"expected": "model answer", "observed": r, "tags": {"driver_err": r["err"], "what": "entry value"}}
+        md, mv = r["ok"][0], float(F(r["ok"][1]))
+        if obs["res"][0] != md or obs["res"][1] != [mv]:
+            return {"expected": {"model entryVal": [md, mv]}, "observed": obs["res"], "tags": {"what": "entry value", "pack": inp["array"]["k"]}}
     return None
+
+
+# ------------------------------------------------------------------------------------------------
+# S2f: the hypothesis predicates of the theorems (Pack.isRealNumeric, Pack.isInteger, Entry.floating) against NumPy's view of
+#      the built object and against the tables the generators of this file quantify over
+# ------------------------------------------------------------------------------------------------
+def gen_predicates(rng, n):
+    for p in all_packs():
+        yield {"case": "pack", "pack": p}
+    for name in ENTRIES:
+        yield {"case": "entry", "entry": name}
+
+
+def run_predicates(inp):
+    if inp["case"] == "pack":
+        d = np.asarray(build(inp["pack"])).dtype
+        return {"res": {"real": d.kind in "iuf", "integer": d == np.dtype("int64")},
+                "harness": {"real": is_real(inp["pack"]), "integer": is_int(inp["pack"])}}
+    return {"res": {"floating": inp["entry"] in FLOATING}}
+
+
+def lean_predicates(inp, obs):
+    if inp["case"] == "pack":
+        return [{"op": "c12.classify", "pack": inp["pack"]}]
+    return [{"op": "c12.classify", "entry": inp["entry"]}]
+
+
+def judge_predicates(inp, obs, lr):
+    m, i = model_ans(lr[0]), impl_ans(obs)
+    if m != i:
+        return {"expected": {"model predicate": m}, "observed": {"numpy / harness table": i, "input": inp}, "tags": {"what": "predicate", "case": inp["case"]}}
+    if inp["case"] == "pack" and is_real(inp["pack"]) and obs["harness"] != m:
+        # the generators quantify over is_real / is_int: they must be the hypotheses of the theorems
+        return {"expected": {"model predicate": m}, "observed": {"harness quantifier": obs["harness"], "input": inp},
+                "tags": {"what": "predicate-harness", "case": inp["case"]}}
+    if inp["case"] == "pack" and obs["harness"]["real"] != m["real"]:
+        return {"expected": {"model predicate": m}, "observed": {"harness quantifier": obs["harness"], "input": inp},
+                "tags": {"what": "predicate-harness", "case": inp["case"]}}
+    return None
+
+
+# ------------------------------------------------------------------------------------------------
+# S2g: the call sites D16 / D17 as they were (source kept here, executed against the library's factories through the public
+#      API), vs fromAnglePinned / standardRotationPinned
+# ------------------------------------------------------------------------------------------------
+def _from_angle_pinned(theta):
+    like = np.array(theta)
+    return utils.zeros(np.array(theta).shape + (3,), like=like)
+
+
+def _standard_rotation_pinned(angle):
+    like = angle
+    affine = utils.identity(2, like=like)
+    rot = utils.rotation_matrix(angle, like=like)
+    affine[0:2, 0:2] = rot
+    mat = utils.zeros((3, 3), like=like)      # Isometry.elliptic as it was
+    mat[1:, 1:] = affine
+    return mat
+
+
+PINNED_SITES = {"from_angle": (lambda p: p["k"] != "other", _from_angle_pinned),
+                "standard_rotation": (_scalar_pack, _standard_rotation_pinned)}
+
+
+def gen_pinned_sites(rng, n):
+    for site, (acc, _) in PINNED_SITES.items():
+        for p in all_packs():
+            if is_real(p) and acc(p):
+                yield {"case": site, "site": site, "pack": p}
+
+
+def run_pinned_sites(inp):
+    return {"res": str(PINNED_SITES[inp["site"]][1](build(inp["pack"], 1)).dtype)}
+
+
+def lean_pinned_sites(inp, obs):
+    return [{"op": "c12.pinned_site", "major": MAJOR, "site": inp["site"], "pack": inp["pack"]}]
 
 
 # ------------------------------------------------------------------------------------------------
@@ -1631,6 +1719,14 @@ CLAUSES = [
     Clause("array_like_value_corr", "corr", gen_values, run_values, judge_values, lean=lean_values, site="utils.array_like",
            budget={"quick": 1, "thorough": 1},
            what="dtype AND stored value of array_like for every real packaging of the same number (7 values, explicit dtype None/int64/float32/float64, both integer_type) vs arrayLikeVal (truncation towards zero for int64)"),
+    Clause("predicates_corr", "corr", gen_predicates, run_predicates, judge_predicates, lean=lean_predicates,
+           site="numpy.asarray dtype kinds / listed entry points", budget={"quick": 80, "thorough": 80},
+           what="hypothesis predicates of the theorems: Pack.isRealNumeric / Pack.isInteger vs the dtype NumPy gives the built object "
+                "(and vs the is_real / is_int the generators quantify over); Entry.floating vs the table of entry points that must be floating"),
+    Clause("pinned_sites_corr", "corr", gen_pinned_sites, run_pinned_sites, judge_eq("pinned call site"), lean=lean_pinned_sites,
+           site="IdealPoint.from_angle / Isometry.standard_rotation as they were (D16, D17)", budget={"quick": 60, "thorough": 60},
+           what="the original call sites (integer_type left at its default; source kept in the harness, run on the library's public "
+                "factories) vs fromAnglePinned / standardRotationPinned for every real packaging"),
     Clause("rescale_corr", "corr", gen_rescale, run_rescale, judge_rescale, lean=lean_rescale, site="hyperbolic rescaling formulas",
            budget={"quick": 40, "thorough": 1500},
            what="affine coords, normalize, cosh d, unit_tangent_towards, point_along, segment ideal endpoints (unordered), Poincare circle, apply: implementation on X and on lambda.X vs the model executed over Q"),
